@@ -143,3 +143,22 @@ def probe_function_form(P, name):
     v = ('local', decl[0]['decl']['name'])
     return (ir.fmt(N.canon(decl[0]['decl']['init'])), decl[0]['decl']['type'], ir.fmt(N.canon(conds[0]['expr'])),
             ir.fmt(N.canon(adj[0]['expr'])), ir.fmt(N.canon(rets[0]['expr'])))
+
+
+def probe_function_eval(P, name):
+    """The probe distance X_Probe(self, i, h) of the resident of slot i whose stored hash is h (home slot + 1) must be
+    (i - (h-1)) modulo the slot count, as a non-negative number — also when the entry wrapped past the end of the table.
+    Evaluated with exact C conversions (the subtraction may be unsigned) for every table size 1..7, slot and home.
+    Returns None when it agrees, else a sentence."""
+    from . import cint
+    fn = P.fn(name)
+    for ns in range(1, 8):
+        for i in range(ns):
+            for home in range(ns):
+                it = cint.CInt(P, fn, atoms={('arrow', ('param', 0), 'nslots'): ns})
+                r = it.run([7001, i, home + 1])
+                want = (i - home) % ns
+                if r[0] != 'ret' or r[1] != want:
+                    got = r[1] if r[0] == 'ret' else '%s (%s)' % (r[0], r[1])
+                    return 'table of %d slots, slot %d, resident whose home is slot %d (stored hash %d): distance %s, it is %d' % (ns, i, home, home + 1, got, want)
+    return None
